@@ -19,6 +19,8 @@ import gen_ir
 
 MAX_VISITS = 10
 FN = "sub_f"
+# concrete model of a call to an extern function (see explore_blocks); callee-saved registers as in gen_ir.project()
+PURE_EXTERN = {"callee_saved": ["RBX", "RBP"], "sp_pop": 8}
 
 
 def explore_blocks(project, sub, max_visits):
@@ -68,6 +70,20 @@ def explore_blocks(project, sub, max_visits):
         j = jmps[idx]
         if j["k"] == "branch":
             work.append((j["target"], st, pc, visits + 1))
+        elif j["k"] == "call" and j.get("ret") is not None:
+            # extern callee modelled as a pure function (one admissible behaviour of any extern symbol): callee-saved
+            # registers and all memory survive, the return address is popped, every other register is arbitrary
+            k = st.calls
+            st.calls += 1
+            spn = project["sp"]["name"]
+            for r in project["regs"]:
+                key = (r["name"], r["size"])
+                if r["name"] == spn:
+                    st.regs[key] = st.lookup(r["name"], r["size"], False) + z3.BitVecVal(PURE_EXTERN["sp_pop"], r["size"] * 8)
+                elif r["name"] not in PURE_EXTERN["callee_saved"]:
+                    st.regs[key] = z3.BitVec("havoc%d_%s_%d" % (k, r["name"], r["size"]), r["size"] * 8)
+            st.temps = {}
+            work.append((j["ret"], st, pc, visits + 1))
         else:
             n_paths += 1
     return records
@@ -185,7 +201,7 @@ def confirm(proj, sub, model, tid, visits, reg, data, node):
     def on_block(t, env):
         seen.append((t, {r["name"]: env(r["name"], r["size"], False) for r in proj["regs"]}))
 
-    concrete.run(proj, sub, ms.reg(-1), ms.mem(-1), ms.havoc, ms.oracle, MAX_VISITS, (), on_block=on_block, abort_null=True)
+    concrete.run(proj, sub, ms.reg(-1), ms.mem(-1), ms.havoc, ms.oracle, MAX_VISITS, (), on_block=on_block, abort_null=True, pure_extern=PURE_EXTERN)
     if len(seen) <= visits or seen[visits][0] != tid:
         return None
     regs = seen[visits][1]
@@ -257,7 +273,7 @@ def run(prop, tier):
         "models_not_confirmed_concretely": stats.get("unconfirmed_models", 0),
         "functions_encoded": ["function_signature::compute_function_signatures + pointer_inference::run (real code, run natively) on the basic-normalized project",
                               "State::get_register at every BlkStart node (values compared with all concrete executions)"],
-        "bounds": "single functions of 2..6 blocks, <= 6 instructions per block, loops unrolled to %d block visits; registers, stack memory at constant offsets, parameter-object memory at constant offsets; no calls; ALL initial register/memory states symbolic" % MAX_VISITS,
+        "bounds": "single functions of 2..6 blocks, <= 6 instructions per block, loops unrolled to %d block visits; registers, stack memory at constant offsets, parameter-object memory at constant offsets; calls to extern functions (malloc, a generic two-parameter function); ALL initial register/memory states symbolic" % MAX_VISITS,
         "inconclusive": inconclusive[:10],
     }
     assumptions = [
@@ -266,6 +282,8 @@ def run(prop, tier):
         "accesses to addresses in (-1024, 1024) abort the run; the stack pointer is 16-byte aligned at entry and at least 2^16 away from address 0 (stack slots do not alias the absolute addresses used); 1-byte registers hold 0/1",
         "memory is only accessed through the stack/frame pointer at constant offsets, at constant absolute addresses, or through pointer parameters (registers the function never overwrites) at small constant offsets; "
         "the objects pointer parameters point to are at least 2^16 bytes away from address 0, from the entry stack pointer and from each other (the analysis' no-aliasing assumption for parameter objects)",
+        "calls go to extern functions only and the callee is modelled as a pure function, which is one admissible behaviour of any extern symbol: callee-saved registers (RBX, RBP) and all memory survive, "
+        "the return address is popped (stack pointer + 8, as the analysis assumes for x86), every other register and flag holds an arbitrary value (flags 0/1) afterwards",
         "only analysis runs that reach their fixpoint are judged; every solver model is replayed by the concrete interpreter before it is reported",
     ]
     known_keys = {f["key"] for f in __import__("common").load_known(prop)}
